@@ -401,3 +401,48 @@ def rule_free_const_param(chk, prog, rid, floor=15):
             else:
                 chk.proven(rid, f.name, sig, c.locstr(), "on no explored path is the released pointer the parameter itself")
     chk.floor(rid, n, floor, "free / realloc call sites inspected")
+
+
+# ---------------------------------------------------------------------------
+def rule_double_release(chk, prog, rid, floor=20):
+    chk.rule(rid, "no block is handed to a releasing routine (free, printbuf_free, lh_table_free, array_list_free, "
+                  "json_tokener_free) twice on one path: for two release calls on the same pointer value, no path leads from the "
+                  "first to the second (branches decided by constants picked up on the path are followed in the decided direction)")
+    REL = {"free": 0, "printbuf_free": 0, "lh_table_free": 0, "array_list_free": 0, "json_tokener_free": 0}
+    n = 0
+    for f in prog.all_functions():
+        if f.is_decl:
+            continue
+        calls = {}
+        for i in f.instrs():
+            if i.op == "call" and i.callee in REL and len(i.ops) > REL[i.callee]:
+                a = i.ops[REL[i.callee]]
+                a = strip_casts(a) if a.kind == "cexpr" else a
+                d = f.defs.get(a.v) if a.kind == "reg" else None
+                hops = 0
+                while d is not None and d.op == "bitcast" and hops < 4:
+                    a = d.ops[0]
+                    d = f.defs.get(a.v) if a.kind == "reg" else None
+                    hops += 1
+                if a.kind == "reg":
+                    n += 1
+                    calls.setdefault(a.v, []).append(i)
+        for reg, cs in calls.items():
+            if len(cs) < 2:
+                continue
+            chk.touched(f)
+            done = False
+            for a in cs:
+                for b in cs:
+                    if a is b or done:
+                        continue
+                    w = reach_avoiding(f, a, lambda x, b=b: x is b, lambda x: False, _known_equalities(f, a.block))
+                    if w is not None:
+                        trail, _ = w
+                        chk.refuted(rid, f.name, "release of %%%s twice" % reg, b.locstr(),
+                                    "the block released by %s at %s is released again here (path %s): a double free"
+                                    % (a.callee, a.locstr(), " -> ".join(trail[-4:])), {"first": a.raw, "second": b.raw})
+                        done = True
+            if not done:
+                chk.proven(rid, f.name, "releases of %%%s" % reg, cs[0].locstr(), "no path from one release to another (%d sites)" % len(cs))
+    chk.floor(rid, n, floor, "release calls inspected")
